@@ -7,7 +7,7 @@
    object level, in C14's LexProofs / LitStringProofs / RealProofs / ObjectRtProofs). *)
 From LV Require Import Base.Bytes Base.Sx Model.Obj Model.Writer Model.Parser Model.Save Model.Xref Model.Loader
   Model.Utf Gen.Lex Proofs.LexProofs Proofs.ObjectRtProofs Proofs.SaveProofs Spec.SaveSpec Proofs.LoadProofs
-  Proofs.LoadProofsFile Proofs.LoadProofsXref.
+  Proofs.LoadProofsFile Proofs.LoadProofsXref Proofs.LoadProofsTable.
 
 Local Open Scope N_scope.
 
@@ -172,11 +172,12 @@ Theorem C01_xref_table_roundtrip :
     POk {| x_type := XTTable; x_entries := conv_map x; x_size := 0 |} (bs "trailer" ++ more).
 Proof. exact xref_table_roundtrip. Qed.
 
-(* The whole-file statement (DESIGN: C01_roundtrip and C01_again), for both formats.  NOT PROVED.
-   Proved pieces: (1)-(11).  Missing: (a) the cross-reference STREAM content written by
-   xstream_content read back through Xref.decode_xref_plain (the table format has (11)); (b) the
-   composition into load: read_entries over the parsed map with (8), the Prev / size-correction /
-   Encrypt steps on the normalised trailer, and the second cycle (savable (reloaded d)). *)
+(* The whole-file statement (DESIGN: C01_roundtrip and C01_again) for both formats is C01_full below.
+   PROVED: the first cycle for the cross-reference TABLE format (C01_roundtrip_table and its reading
+   C01_roundtrip_table_same).  NOT proved: (a) the cross-reference STREAM format -- missing is the
+   stream content written by xstream_content read back through Xref.decode_xref_plain and the
+   composition with it (every other piece, (1)-(11), is format independent); (b) the second cycle
+   (savable (reloaded_table d), which needs "normalisation keeps well-formedness, types and nesting"). *)
 Definition bookkeeping : list bytes :=
   [K_Type; Save.K_Size; Save.K_W; Save.K_Index; K_Length; Save.K_Prev; K_Filter].
 Definition is_xref_stream (o : obj) : bool :=
@@ -197,6 +198,65 @@ Definition C01_full : Prop :=
     exists d1 d2,
       load (so_bytes (save xt d)) = LOk d1 (xtype_of xt) /\ same_doc d d1 /\
       load (so_bytes (save xt d1)) = LOk d2 (xtype_of xt) /\ same_doc d1 d2 /\ same_doc d d2.
+
+(* (12) MAIN THEOREM, table format.  For every document of the domain that is outside the known-finding
+   class and whose file stays below 4 GiB: loading the bytes save wrote succeeds, remembers the format,
+   and returns exactly [reloaded_table d]: same version and binary mark, the same identifiers with every
+   object replaced by its normal form (an integral real becomes the integer, nothing else changes),
+   the trailer with Size set, normalised, and max_id = the largest object number. *)
+Theorem C01_roundtrip_table :
+  forall d, savable d -> known_deep d = false -> small_file XTable d ->
+    load (save_table d) = LOk (reloaded_table d) XTTable.
+Proof. exact load_save_table. Qed.
+
+(* ... read as the clauses of the property text *)
+Theorem C01_roundtrip_table_same :
+  forall d, savable d -> known_deep d = false -> small_file XTable d ->
+    exists d1, load (so_bytes (save XTable d)) = LOk d1 (xtype_of XTable) /\
+               d_version d1 = d_version d /\
+               map fst (d_objects d1) = map fst (d_objects d) /\
+               d_objects d1 = norm_objects (d_objects d) /\
+               same_trailer (d_trailer d) (d_trailer d1).
+Proof.
+  intros d S K Hs. exists (reloaded_table d). split; [apply load_save_table; assumption|].
+  split; [reflexivity|]. split.
+  - cbn [reloaded_table d_objects]. unfold norm_objects. rewrite map_map. reflexivity.
+  - split; [reflexivity|]. intros k Hk. cbn [reloaded_table d_trailer].
+    rewrite !dict_get_norm. unfold trailer_table.
+    destruct (bytes_eqb k Save.K_Size) eqn:E.
+    + apply bytes_eqb_eq in E. subst k. exfalso. apply Hk. right. left. reflexivity.
+    + apply bytes_eqb_neq in E. rewrite FilterProofsDict.dict_get_set_other by exact E. reflexivity.
+Qed.
+
+(* non-vacuity of the main theorem: the example document meets every hypothesis *)
+Theorem C01_example_domain :
+  savable ex_doc /\ known_deep ex_doc = false /\ small_file XTable ex_doc /\
+  load (save_table ex_doc) = LOk (reloaded_table ex_doc) XTTable.
+Proof.
+  assert (S : savable ex_doc).
+  { constructor.
+    - vm_compute. reflexivity.
+    - reflexivity.
+    - reflexivity.
+    - vm_compute. discriminate.
+    - cbn [ex_doc d_objects obj_numbers map fst increasing]. repeat split; reflexivity.
+    - cbn [ex_doc d_objects d_max_id].
+      apply Forall_cons; [|apply Forall_cons; [|apply Forall_nil]]; cbn [fst snd].
+      + split; [vm_compute; discriminate|]. split; [vm_compute; discriminate|]. split; [|reflexivity].
+        cbn [top_wf]. constructor; [repeat constructor; cbn; intuition discriminate|].
+        repeat constructor.
+      + split; [vm_compute; discriminate|]. split; [vm_compute; discriminate|]. split; [|reflexivity].
+        cbn [top_wf]. split; [|reflexivity].
+        constructor; [repeat constructor; cbn; intuition discriminate|].
+        repeat constructor.
+    - cbn [ex_doc d_trailer]. constructor; [repeat constructor; cbn; intuition discriminate|].
+      constructor; [|constructor]. cbn [snd]. constructor; vm_compute; discriminate.
+    - reflexivity.
+    - reflexivity. }
+  assert (K : known_deep ex_doc = false) by (vm_compute; reflexivity).
+  assert (Hs : small_file XTable ex_doc) by (vm_compute; reflexivity).
+  split; [exact S|]. split; [exact K|]. split; [exact Hs|]. apply load_save_table; assumption.
+Qed.
 
 (* the known-finding class is inhabited and the domain is not empty *)
 Theorem C01_known_class_witness :
@@ -222,4 +282,7 @@ Print Assumptions C01_binary_mark_roundtrip.
 Print Assumptions C01_startxref_roundtrip.
 Print Assumptions C01_trailer_roundtrip.
 Print Assumptions C01_xref_table_roundtrip.
+Print Assumptions C01_roundtrip_table.
+Print Assumptions C01_roundtrip_table_same.
+Print Assumptions C01_example_domain.
 Print Assumptions C01_known_class_witness.
